@@ -1100,7 +1100,7 @@ fn run_x(rest: &str) -> (String, String) {
 }
 
 fn main() {
-    supervised(8000, |line| {
+    supervised(4000, |line| {
         let (kind, rest) = line.split_at(1);
         let rest = rest.trim_start();
         let r = catch(|| match kind {
